@@ -1013,6 +1013,9 @@ func (e *Engine) step(st *State, in ssa.Instruction) {
 			}
 		}
 		e.nilCheck(st, a, x, "store")
+		if v.Clo != nil {
+			e.escape(st, v) // a closure stored into memory: its bindings escape
+		}
 		vt := e.valTerm(v)
 		if v.Ty == nil || carriesRef(v.Ty, 0) {
 			e.escapeStore(st, a, vt)
